@@ -90,9 +90,11 @@ class Ctx:
         results = []
         pending = [list(a) for a in arg_lists]
         attempt = 0
+        continuations = 0
         while pending and attempt <= restarts:
             rs = R.run_workers(binary, env, pending, timeout, jobs=jobs)
             nxt = []
+            cont = []
             for r in rs:
                 results.append(r)
                 self._merge(r, engine, cfg, build_kwargs)
@@ -101,7 +103,17 @@ class Ctx:
                     resume = self._resume_args(r)
                     if resume is not None and not r.crash.get("inconclusive"):
                         nxt.append(resume)
-            pending = nxt
+                elif r.report is not None and r.report.get("resume_from") is not None:
+                    # the worker ended early on purpose (scheduler verdict / poisoned state)
+                    resume = self._resume_args(r, int(r.report["resume_from"]))
+                    if resume is not None:
+                        cont.append(resume)
+            if cont and not nxt and continuations < 200:
+                # voluntary continuations do not count as crash restarts
+                continuations += len(cont)
+                pending = cont
+                continue
+            pending = nxt + cont
             attempt += 1
         if pending:
             self.inconclusive.append("%s: %d worker(s) kept crashing; remaining cases not run" % (name, len(pending)))
@@ -117,16 +129,16 @@ class Ctx:
                 return args[i + 1]
         return None
 
-    def _resume_args(self, r):
-        """Arguments that continue a crashed worker after the offending case."""
-        if r.progress is None or "--only" in r.args:
+    def _resume_args(self, r, resume_from=None):
+        """Arguments that continue a worker after the offending case."""
+        if "--only" in r.args or (r.progress is None and resume_from is None):
             return None
         first = int(self._argval(r.args, "--first") or 0)
         cases = self._argval(r.args, "--cases")
         if cases is None:
             return None
         cases = int(cases)
-        done = int(r.progress.get("case", first)) + 1
+        done = resume_from if resume_from is not None else int(r.progress.get("case", first)) + 1
         remaining = first + cases - done
         if remaining <= 0:
             return None
